@@ -181,7 +181,7 @@ def run_e2e(case: dict[str, Any], wd: Path) -> dict[str, Any]:
                 sit["e2e_displacements_checked"] = sit.get("e2e_displacements_checked", 0) + 1
                 if n and int(p) > victims[0]:
                     sit["e2e_displacement_of_a_particle_stored_behind_one_that_died"] = sit.get("e2e_displacement_of_a_particle_stored_behind_one_that_died", 0) + 1
-                if abs(x1 - tx) > 1e-9 or abs(y1 - ty) > 1e-9:
+                if not (abs(x1 - tx) <= 1e-9) or not (abs(y1 - ty) <= 1e-9):
                     V.append(C.viol(f"Euler-forward step {n} moved pid {p} from ({x:.6f},{y:.6f},Z={z:.3f}) to ({x1:.8f},{y1:.8f}); the file's u, v interpolated at the particle's own position give "
                                     f"({tx:.8f},{ty:.8f}) (pids {victims} were removed in the first step)", **desc))
                     break
@@ -373,7 +373,7 @@ def run_case(case: dict[str, Any], wd: Path) -> dict[str, Any]:
             k = int(np.argmax(np.abs(U2 - U0) + np.abs(V2 - V0) + np.abs(sc2["temp"] - sc0["temp"])))
             V.append(C.viol(f"second update() of the same Forcing (same particle count, particles permuted): particle at ({X[k]},{Y[k]},Z={Z[k]}) gets ({U2[k]:.8f},{V2[k]:.8f}, temp {sc2['temp'][k]}) "
                             f"instead of ({U0[k]:.8f},{V0[k]:.8f}, temp {sc0['temp'][k]}): per-particle data of the previous step leaks into this one, or the later frame is treated differently (masking, unpacking)", **desc))
-    if np.max(np.abs(fu0 - U0)) > 1e-12 or np.max(np.abs(fv0 - V0)) > 1e-12:
+    if not (np.max(np.abs(fu0 - U0)) <= 1e-12) or not (np.max(np.abs(fv0 - V0)) <= 1e-12):
         V.append(C.viol("forcing.variables['u','v'] after update() differ from forcing.velocity at the same positions", **desc))
 
     # --- reference interpolation with global indices
@@ -471,7 +471,7 @@ def run_case(case: dict[str, Any], wd: Path) -> dict[str, Any]:
             f = lambda k: coef[k, 0] + coef[k, 1] * X[p] + coef[k, 2] * Y[p]  # noqa: E731
             exp_u[p] = w0 * f(k0) + (1 - w0) * f(k1)
         okm = ~np.isnan(exp_u)
-        if np.max(np.abs(U0[okm] - exp_u[okm])) > 1e-9:
+        if not (np.max(np.abs(U0[okm] - exp_u[okm])) <= 1e-9):
             V.append(C.viol(f"u is not exact for a field linear in x and y on the levels (max error {np.max(np.abs(U0[okm] - exp_u[okm])):.3g})", **desc))
         _bump(sit, "linear_levels_exact", int(okm.sum()))
     if kind == "linear3d":
@@ -479,7 +479,7 @@ def run_case(case: dict[str, Any], wd: Path) -> dict[str, Any]:
         exp_u = vel["u0"] + vel["ux"] * X + vel["uy"] * Y + vel["uz"] * zc
         exp_v = vel["v0"] + vel["vx"] * X + vel["vy"] * Y + vel["vz"] * zc
         err = max(np.max(np.abs(U0 - exp_u)), np.max(np.abs(V0 - exp_v)))
-        if err > 1e-9:
+        if not (err <= 1e-9):
             V.append(C.viol(f"velocity is not exact for a field linear in x, y and depth over a flat bottom (max error {err:.3g})", **desc))
         _bump(sit, "linear3d_exact", n)
     # --- subgrid pair monitor
@@ -491,7 +491,7 @@ def run_case(case: dict[str, Any], wd: Path) -> dict[str, Any]:
         du = np.max(np.abs(U1[nt] - U0[nt]))
         dv = np.max(np.abs(V1[nt] - V0[nt]))
         ds = max(np.max(np.abs(sc1[k][nt] - sc0[k][nt])) for k in ("temp", "salt"))
-        if du > 1e-11 or dv > 1e-11 or ds > 0:
+        if not (du <= 1e-11) or not (dv <= 1e-11) or not (ds <= 0):
             p = int(np.argmax(np.where(nt, np.abs(U1 - U0) + np.abs(V1 - V0) + np.abs(sc1["temp"] - sc0["temp"]), 0)))
             V.append(C.viol(f"forcing at the same position depends on the loaded subgrid: full grid ({U0[p]:.8f},{V0[p]:.8f}, temp {sc0['temp'][p]}) vs subgrid {sub} "
                             f"({U1[p]:.8f},{V1[p]:.8f}, temp {sc1['temp'][p]}) at ({X[p]},{Y[p]},{Z[p]})", **desc))
